@@ -669,7 +669,7 @@ func extSortSlice(fr *frame, args []value) value {
 
 func (ps *pathState) indexByte(e []value, c value) value {
 	for i, b := range e {
-		eq := binop(ps, token.EQL, nil, b, c)
+		eq := binop(ps, token.EQL, types.Typ[types.Uint8], b, c)
 		if ps.decideVal(eq) {
 			return i
 		}
@@ -680,7 +680,7 @@ func (ps *pathState) indexByte(e []value, c value) value {
 func (ps *pathState) countByte(e []value, c value) value {
 	n := 0
 	for _, b := range e {
-		eq := binop(ps, token.EQL, nil, b, c)
+		eq := binop(ps, token.EQL, types.Typ[types.Uint8], b, c)
 		if ps.decideVal(eq) {
 			n++
 		}
